@@ -91,6 +91,13 @@ def h3(ck: Check) -> None:
         he = [x for x in logic.atoms(pc) if x[0] == "b" and "has_edge" in x[1]]
         if not he or not logic.implies(pc, logic.Not(("atom", he[0]))):
             probs.append("add_edge is not restricted to missing edges (an existing edge's motif list would be overwritten)")
+        # ... and the test is about this edge, parent first (in a DAG the reverse edge never exists, so the swapped test
+        # always says "missing")
+        for c_ in own_walk(fm.f.node):
+            if isinstance(c_, ast.Call) and callee_name(c_) == "has_edge" and len(c_.args) == 2 \
+                    and {text(x) for x in c_.args} == {par, child} and [text(x) for x in c_.args] != [par, child]:
+                probs.append(f"line {c_.lineno}: `{text(c_)}` tests the reverse edge (child, parent): in a DAG it never exists, so add_edge "
+                             f"runs every time and overwrites the motif list of an existing edge")
     if len(apps) != 1 or text(apps[0].args[0]) != motif or f"[{par}, {child}]" not in fm.key(apps[0].func.value, fm.cfgn(apps[0])):
         probs.append("a further stable motif of an existing edge is not appended to that edge's all_motifs")
     # the existing-edge path records the motif unless it is already recorded: an edge can be inserted again (a second
